@@ -6,7 +6,8 @@ GRID = {
     "HASH": [["0"], ["1"], ["10"], ["50"], ["300"]],
     "BLOCKS": [["0", "1", "1"], ["10", "8", "2"], ["50", "20", "3"], ["10", "60", "8"], ["0", "200", "2"], ["10", "1048576", "1"]],
     "FMINDEX": [["0", "2", "0"], ["0", "4", "1"], ["0", "20", "3"], ["1", "2", "2"], ["1", "16", "8"], ["1", "32", "64"], ["0", "4", "64"],
-                ["0", "4", "4"], ["1", "16", "5"], ["0", "20", "7"], ["0", "2", "16"]],
+                ["0", "4", "4"], ["1", "16", "5"], ["0", "20", "7"], ["0", "2", "16"],
+                ["1", "3", "1"], ["1", "5", "3"], ["1", "33", "2"], ["1", "21", "8"], ["0", "3", "2"], ["0", "1", "1"]],   # odd bitmap samplings
 }
 
 
